@@ -57,6 +57,149 @@ pub struct HedgeCase {
     /// an event listener is registered on the layer
     #[serde(default)]
     pub listeners: bool,
+    /// instead of a simulated history: parallel-mode calls on a multi-threaded runtime, where
+    /// attempts run (and fail) on other worker threads while the fan-out is still going on
+    #[serde(default)]
+    pub stress: Option<HedgeStress>,
+}
+
+#[derive(Clone, Debug, Serialize, Deserialize)]
+pub struct HedgeStress {
+    pub max: usize,
+    /// the first `fail_first` inner calls of every request fail at once, the others succeed
+    pub fail_first: usize,
+    pub workers: usize,
+    pub iters: u32,
+    /// a listener spends roughly this many loop iterations on every hedge-started event
+    pub spin: u32,
+    /// 0 no_delay(), 1 delay(ZERO), 2 delay_fn always zero
+    pub zero_kind: u8,
+}
+
+fn stress_strategy(tier: Tier) -> BoxedStrategy<HedgeCase> {
+    let iters = match tier {
+        Tier::Quick => 600u32,
+        Tier::Thorough => 6_000,
+    };
+    (2usize..=5, 0usize..=6, 2usize..=4, prop_oneof![Just(0u32), Just(2_000u32), Just(20_000u32), 0u32..=50_000], 0u8..3)
+        .prop_map(move |(max, fail_first, workers, spin, zero_kind)| HedgeCase {
+            max,
+            delay: Delay::Immediate,
+            attempts: vec![],
+            order: vec![],
+            step_ms: 1,
+            max_last: false,
+            clone_ready_ms: 0,
+            drain_budget: false,
+            poll_delay: 0,
+            spawned_first: false,
+            listeners: true,
+            stress: Some(HedgeStress {
+                max,
+                fail_first: fail_first.min(max),
+                workers,
+                iters,
+                spin,
+                zero_kind,
+            }),
+        })
+        .boxed()
+}
+
+/// Parallel-mode hedging on a multi-threaded runtime (real worker threads; see crate::stress for
+/// what that means for replay). Oracle per request: at most `max` inner calls; if fewer than `max`
+/// of them are scripted to fail the call succeeds with a successful attempt's response; otherwise
+/// it reports all-attempts-failed after exactly `max` inner calls.
+pub fn run_hedge_stress(st: &HedgeStress) -> Report {
+    use std::sync::atomic::{AtomicU32, Ordering};
+    use std::sync::Arc;
+    let mut r = Report::default();
+    let n = st.iters as usize;
+    let attempts: Arc<Vec<AtomicU32>> = Arc::new((0..n).map(|_| AtomicU32::new(0)).collect());
+    let at2 = attempts.clone();
+    let fail_first = st.fail_first as u32;
+    let inner = tower::service_fn(move |req: Req| {
+        let k = at2[req.id as usize].fetch_add(1, Ordering::SeqCst);
+        async move {
+            if k < fail_first {
+                Err(SErr { code: 5, serial: k as u64 })
+            } else {
+                Ok(Resp { serial: k as u64, req })
+            }
+        }
+    });
+    struct Slow(u32);
+    impl tower_resilience_core::EventListener<tower_resilience_hedge::HedgeEvent> for Slow {
+        fn on_event(&self, event: &tower_resilience_hedge::HedgeEvent) {
+            if matches!(event, tower_resilience_hedge::HedgeEvent::HedgeStarted { .. }) {
+                crate::stress::spin(self.0);
+            }
+        }
+    }
+    let b = HedgeLayer::builder().name("stress").max_hedged_attempts(st.max).on_event(Slow(st.spin));
+    let layer = match st.zero_kind {
+        0 => b.no_delay().build(),
+        1 => b.delay(Duration::ZERO).build(),
+        _ => b.delay_fn(|_| Duration::ZERO).build(),
+    };
+    let mut svc = layer.layer(inner);
+    let base_ns = crate::vclock::now_ns();
+    let rt = tokio::runtime::Builder::new_multi_thread()
+        .worker_threads(st.workers)
+        .enable_time()
+        .on_thread_start(move || crate::vclock::advance_ns(base_ns))
+        .build()
+        .expect("runtime");
+    let mut bad: Option<String> = None;
+    let mut all_failed = 0usize;
+    for i in 0..n {
+        let req = Req {
+            id: i as u32,
+            key: 0,
+            tag: 0,
+        };
+        let res = rt.block_on(async {
+            futures::future::poll_fn(|cx| svc.poll_ready(cx)).await.ok();
+            svc.call(req).await
+        });
+        let made = attempts[i].load(Ordering::SeqCst) as usize;
+        let verdict = match &res {
+            Ok(resp) if st.fail_first < st.max && resp.serial >= st.fail_first as u64 && resp.req.id == i as u32 => None,
+            Err(HedgeError::AllAttemptsFailed(_)) if st.fail_first >= st.max => {
+                all_failed += 1;
+                if made == st.max {
+                    None
+                } else {
+                    Some(format!("all-attempts-failed reported after {made} inner calls, max_hedged_attempts = {}", st.max))
+                }
+            }
+            Err(HedgeError::AllAttemptsFailed(_)) => Some(format!(
+                "all-attempts-failed reported after only {made} of max_hedged_attempts = {} attempts were started ({} of a request's inner calls fail, the others succeed)",
+                st.max, st.fail_first
+            )),
+            other => Some(format!("resolved with {:?}", other.as_ref().map(|r| r.serial).map_err(|e| e.to_string()))),
+        };
+        if made > st.max && bad.is_none() {
+            bad = Some(format!("request {i}: {made} inner calls, max_hedged_attempts = {}", st.max));
+        }
+        if let (Some(m), None) = (verdict, &bad) {
+            bad = Some(format!("request {i}: {m}"));
+        }
+        if bad.is_some() {
+            break;
+        }
+    }
+    drop(rt);
+    if let Some(m) = bad {
+        r.fail(format!(
+            "parallel-mode hedging on a runtime with {} worker threads (listener spending ~{} iterations per hedge start): {m}",
+            st.workers, st.spin
+        ));
+    }
+    r.nontrivial = true;
+    r.class("multi_threaded_runtime_stress");
+    r.trace = json!({"all_failed": all_failed, "stress": st});
+    r
 }
 
 fn one() -> u64 {
@@ -111,6 +254,7 @@ fn case_strategy(_tier: Tier) -> BoxedStrategy<HedgeCase> {
             poll_delay,
             spawned_first,
             listeners,
+            stress: None,
         })
         .boxed()
 }
@@ -430,7 +574,7 @@ impl Property for C12 {
         "C12"
     }
     fn strategy(&self, tier: Tier) -> BoxedStrategy<HedgeCase> {
-        case_strategy(tier)
+        prop_oneof![2000 => case_strategy(tier), 1 => stress_strategy(tier)].boxed()
     }
     fn budget(&self, tier: Tier) -> (u32, usize) {
         match tier {
@@ -439,6 +583,9 @@ impl Property for C12 {
         }
     }
     fn run(&self, case: &HedgeCase) -> Report {
+        if let Some(st) = &case.stress {
+            return run_hedge_stress(st);
+        }
         let v = run_hedge(case);
         let mut r = Report::default();
         if let Some(m) = v.violations.first() {
@@ -451,7 +598,7 @@ impl Property for C12 {
         r
     }
     fn rule(&self) -> String {
-        "proptest-generated cases: max_hedged_attempts 1-5, delay in {fixed 1-100 ms, fixed zero, no_delay(), per-attempt function with zeros}, per-attempt latency 0-300 ms and ok/error; virtual clock. Oracle (constraints, not one schedule): inner starts <= max, each with the caller's request; start(k) - start(k-1) >= delay(k); all starts in one instant when every delay is zero; Ok(v) => v is the serial of a started successful attempt delivered at its completion instant, and no started attempt succeeded earlier; all-attempts-failed => exactly max attempts started and each failed no later than the report; the call resolves within the horizon. Non-trivial: an attempt fails while another is still running, or a success and an attempt start share an instant; distinct by hash of the case".into()
+        "proptest-generated cases: max_hedged_attempts 1-5, delay in {fixed 1-100 ms, fixed zero, no_delay(), per-attempt function with zeros}, per-attempt latency 0-300 ms and ok/error; virtual clock; about one case in 2000 is instead a stress of parallel-mode hedging on a multi-threaded runtime (2-4 workers, 600/6000 requests whose first k inner calls fail at once, a listener that spends some time per hedge start). Oracle (constraints, not one schedule): inner starts <= max, each with the caller's request; start(k) - start(k-1) >= delay(k); all starts in one instant when every delay is zero; Ok(v) => v is the serial of a started successful attempt delivered at its completion instant, and no started attempt succeeded earlier; all-attempts-failed => exactly max attempts started and each failed no later than the report; the call resolves within the horizon. Non-trivial: an attempt fails while another is still running, or a success and an attempt start share an instant; distinct by hash of the case".into()
     }
     fn assumptions(&self) -> Vec<String> {
         vec![
